@@ -243,7 +243,7 @@ Section Suite.
                 mret (if (two (le CS - 1) <? e) && (e <? two (le CS)) && (Z.gcd e ph =? 1) then Some e else None)).
 
   (* prod_i bases[i] ^ exps[i] mod n, un-reduced product, indices 0..len exps (panics when bases is shorter) *)
-  Fixpoint prod_pows (bases exps : list Z) (n : Z) (acc : Z) : outcome Z :=
+  Fixpoint prod_pows (bases exps : list Z) (n : Z) (acc : Z) {struct exps} : outcome Z :=
     match exps with
     | [] => Ok acc
     | m :: ms => match bases with
